@@ -14,4 +14,13 @@ MUTANTS = [
     {"name": "c05-literal-single-recv", "prop": "C05", "file": MS,
      "old": "            buf += data\n            size -= len(data)\n",
      "new": "            buf += data\n            size = 0\n"},
+    {"name": "c09-bye-not-raised", "prop": "C09", "file": MS,
+     "old": "                if m.group(1) == b\"BYE\":\n                    raise Error(\"Connection closed by server\")\n",
+     "new": ""},
+    {"name": "c09-listing-ignores-no", "prop": "C09", "file": MS,
+     "old": "        code, data, listing = self.__send_command(\"LISTSCRIPTS\", withcontent=True)\n        if code == \"NO\":\n            return None\n",
+     "new": "        code, data, listing = self.__send_command(\"LISTSCRIPTS\", withcontent=True)\n"},
+    {"name": "c09-errmsg-keeps-escapes", "prop": "C09", "file": MS,
+     "old": "            errmsg = re.sub(rb\"\\\\(.)\", rb\"\\1\", text[1:-1])\n",
+     "new": "            errmsg = text[1:-1]\n"},
 ]
